@@ -176,7 +176,9 @@ def prop_reuse(case, ctx):
         from vpm.core import Rejected
         raise Rejected("different rmax")
     make = lambda: rm.RMAX(episodes=case["episodes"], rmax=rb, num_transition_samples=case["m"], seed=case["seed"])
-    check_reuse(ctx, "C17.reuse", make, lambda l, m: l.train_on(m), lambda r, m: {"q": r.q_values}, ma, mb)
+    from vpm.checks.reuse import policy_table
+    check_reuse(ctx, "C17.reuse", make, lambda l, m: l.train_on(m),
+                lambda r, m: {"q": r.q_values, "pi": policy_table(r.policy, list(m.state_list))}, ma, mb)
     ctx.nontrivial(case["a"] != case["b"])
 
 
